@@ -1,7 +1,7 @@
 """C13 - Predicate combinators and reference substitutions are semantically exact."""
 from harness.common import Report, import_hpl, rng, tier
 from harness.drive import call_parser
-from harness.rewrite_driver import Recorder, corrupt_first, family_texts, parse_inputs
+from harness.rewrite_driver import Recorder, corrupt_first, derived_pass, family_texts, parse_inputs
 
 FAMS = ['slots', 'bool1w', 'quants', 'incl', 'alias']
 
@@ -35,7 +35,9 @@ def run(replay=None):
         o, obj = call_parser('condition', t)
         assert o == 'ast', (t, o)
         pool.append((t, obj))
+    used = []
     for fam, text, entry, obj in parse_inputs(texts, ('expression', 'condition')):
+        used.append((text, obj))
         if entry == 'condition':
             rec.negate(text, obj)
             for qt, q in pool:
@@ -52,6 +54,17 @@ def run(replay=None):
             rec.replace(text, obj, False, 'A')
             if rnd.random() < 0.2:
                 rec.replace(text, obj, True, 'A')
+    def again(text, obj):
+        from hpl.ast.predicates import HplPredicate
+        if isinstance(obj, HplPredicate):
+            rec.negate(text, obj)
+            rec.join(text, obj, pool[3][1], pool[3][0])
+            rec.event(text, obj, 'A')
+            rec.event(text, obj, 'M')
+        rec.replace(text, obj, True, 'M')
+        rec.replace(text, obj, False, 'A')
+        rec.replace(text, obj, False, 'M')
+    rep.count('derived_after_use', derived_pass(used, again, rnd, 600 if thorough else 150, prepare=again))
     for i, clause in rec.validate(canary):
         inf = rec.info[i]
         rep.violation('%s|%s|%s' % (clause, inf['op'], inf['text']), '%s(%r) -> %s violates %s' % (inf['op'], inf['text'], inf['result'] or inf['out'], clause), inf)
